@@ -62,7 +62,13 @@ def metric(sp, coords, cls, rng, poly=False):
     elif cls == 'block':
         off = [(0, 1), (2, 3)]
     for (i, j) in off:
-        g[i, j] = g[j, i] = sp.Rational(1, 5) * entry(0)
+        e = sp.Rational(1, 5) * entry(0)
+        others = [c for q, c in enumerate(coords) if q not in (i, j)]
+        if len(others) >= 2 and rng.random() < 0.5:
+            # depends on the two coordinates the entry does not carry
+            # (components such as R_0312 with four distinct indices)
+            e = sp.Rational(1, 5) * R() * others[0] * others[1]
+        g[i, j] = g[j, i] = e
     return g
 
 
